@@ -13,3 +13,4 @@ import NutsModel.Thm.C15
 import NutsModel.Thm.C14
 import NutsModel.Thm.Controller
 import NutsModel.Thm.CtlTrace
+import NutsModel.Thm.C05
